@@ -17,7 +17,7 @@
    far was a full update; the update number max_iter writes x and resid only.  All theorems
    quantify over ALL k, all max_iter, all tol, all x0, b. *)
 From Coq Require Import Reals ZArith List Bool.
-From SV Require Import model.Alg proofs.IPSpace proofs.CGBasic proofs.CG.
+From SV Require Import model.Alg proofs.IPSpace proofs.CGBasic proofs.CG proofs.CGKrylov.
 Local Open Scope R_scope.
 
 (* [core] residual invariant: while k < max_iter the tracked residual is the true residual *)
@@ -92,6 +92,30 @@ Theorem C12_cg_optimal :
 Proof. exact cg_optimal. Qed.
 Print Assumptions C12_cg_optimal.
 
+(* [core] Krylov optimality: the span of the directions contains the preconditioned Krylov vectors, so x_k minimises
+   phi over  x0 + K_k(PA, P r_0) = { x0 + sum_{j<k} d_j (PA)^j P r_0 }  (kry j = (PA)^j P r_0 with r_0 = the initial
+   residual b - A x0;  kcomb d k = sum_{j<k} d_j kry j), for every k up to and including max_iter.
+   Since phi(x) = 1/2 ||x - xs||_A^2 - 1/2 <xs, A xs> when A xs = b, this is minimality of the A-norm of the error. *)
+Theorem C12_cg_krylov_optimal :
+  forall (H : IPSpace) (A : ipV H -> ipV H) (b : ipV H) (P : option (ipV H -> ipV H)) (x0 : ipV H)
+         (max_iter : Z) (tol : R),
+    selfadjoint H A -> P_ok H P ->
+    forall k : nat,
+      let s := cg_seq (ops_of H) A b P x0 max_iter tol in
+      possemidef H A -> (Z.of_nat k <= Z.max 0 max_iter)%Z -> cg_npd (s k) = false ->
+      forall d : nat -> R,
+        phi H A b (cg_x (s k))
+        <= phi H A b (ipadd H x0 (kcomb H A (cg_applyP (ops_of H) P) (fun i => cg_r (s i)) d k)).
+Proof. exact cg_krylov_optimal. Qed.
+Print Assumptions C12_cg_krylov_optimal.
+
+(* the link between phi and the A-norm of the error *)
+Theorem C12_phi_is_anorm_error :
+  forall (H : IPSpace) (A : ipV H -> ipV H) (b : ipV H), selfadjoint H A ->
+  forall xs x : ipV H, A xs = b -> errA2 H A xs x = 2 * phi H A b x + ipdot H xs (A xs).
+Proof. exact errA2_phi. Qed.
+Print Assumptions C12_phi_is_anorm_error.
+
 (* corollary: the squared A-norm of the error <x - xs, A (x - xs)> never increases *)
 Theorem C12_cg_anorm_error_monotone :
   forall (H : IPSpace) (A : ipV H -> ipV H) (b : ipV H) (P : option (ipV H -> ipV H)) (x0 : ipV H)
@@ -140,9 +164,8 @@ Theorem C12_cg_breakdown_only_when_solved :
 Proof. exact cg_breakdown_only_when_solved. Qed.
 Print Assumptions C12_cg_breakdown_only_when_solved.
 
-(* [stretch, NOT proved]  cg_finite : dim V <= n -> r_n = 0, and
-   span{p_0..p_{k-1}} = K_k(PA, P r_0) = { q(PA) P r_0 : deg q < k }.
-   Both are validated numerically only (props/C12.py: Krylov least-squares oracle). *)
+(* [stretch, NOT proved]  cg_finite : dim V <= n -> r_n = 0  (validated numerically only, props/C12.py).
+   (Of span{p_0..p_{k-1}} = K_k only the inclusion  K_k <= span  is proved -- the one optimality needs.) *)
 
 (* non-vacuity: the hypotheses are satisfiable (R^2, a symmetric positive-definite 2x2 matrix,
    with and without a preconditioner) *)
